@@ -1,5 +1,5 @@
 from .. import facts
-from ..rules import factors, codec
+from ..rules import factors, codec, image
 
 
 def run(ck):
@@ -24,3 +24,4 @@ def run(ck):
     codec.r10_accessor_presence(ck, P)
     codec.r11_yuy2_siblings(ck, P)
     codec.r12_simd_helpers(ck, P)
+    image.r_hook_refreshes_unconditionally(ck, P, 'C10-R13')
